@@ -100,6 +100,16 @@ package controlcommands
 // C02: a target that could not be reached is filed too, with a response (built from the send error), so that an
 // unreachable or silent critical task reaches transitionTasks / configureTasks as a failed one
 //@   on mapupdate responses : assert key == lastRecv && filed + 1 == got && (lastFailed ==> value != nil) ; filed = filed + 1
+// C12 (each target's result is its own reply, or an error saying that IT could not be sent to or did not answer): the
+// response made up for a target that gave none is built from that target's error, for that target
+//@   ghostvar noResp bool = false
+//@   ghostvar lastErr error = nil
+//@   ghostvar builtAt int = -1
+//@   ghostvar built *MesosCommandResponseBase = nil
+//@   on recv * : noResp = value.err != nil && value.response == nil ; lastErr = value.err
+//@   on call NewMesosCommandResponse : assert noResp && arg1 == lastErr
+//@   on aftercall NewMesosCommandResponse : built = result ; builtAt = got
+//@   on mapupdate responses : assert noResp ==> builtAt == got && value == iface(built)
 //@   loop 1 invariant spawned == #i + 1 && #i < len(targetsOf(command)) && got == 0 && filed == 0
 //@   loop 2 invariant got == i && filed == i && spawned == len(targetsOf(command)) && i >= 0 && i <= len(targetsOf(command))
 //@   ensures m != nil ==> spawned == len(targetsOf(command))
